@@ -34,6 +34,6 @@ for seed in seeds:
         sigs.setdefault(f["assertion"], []).append(f)
     for a, fs in sigs.items():
         bad += 1
-        print("  ORACLE", a, len(fs), "e.g.", fs[0]["detail"][:300]); [print("      " + l) for l in fs[0]["ops"][-30:]]
+        print("  ORACLE", a, len(fs), "e.g.", fs[0]["detail"][:300]); [print("      " + l) for l in (fs[0].get("ops") or fs[0].get("Ops") or [])[-30:]]
     subprocess.run(["rm", "-rf", work])
 print("SWEEP", "CLEAN" if not bad else "FOUND %d" % bad)
